@@ -650,6 +650,52 @@ func verifHarness_C09_history() {
 	verifReach("end")
 }
 
+// Records whose encoding is empty (a struct without fields): "records pending"
+// and "bytes buffered" are different things. Same history, same model.
+func verifHarness_C09_history_empty_records() {
+	verifAllocMax(4096)
+	verifUnwind(400)
+	comp := verifCompression(verifChoice("codec", 3))
+	bs := []int{0, 100}[verifChoice("blocksize", 2)]
+	rec := &verifRecorder{failAt: -1}
+	e, err := NewEncoderFor[struct{}](rec, comp, bs)
+	verifAssert(err == nil, "C09:encoder-created")
+	if err != nil {
+		return
+	}
+	hdr := len(rec.all())
+	sync := e.fw.sync
+	nops := 1 + verifChoice("ops", verifC09Ops())
+	var pending [][]byte
+	var wantBlocks [][][]byte
+	for i := 0; i < nops; i++ {
+		if verifChoice("op", 2) == 0 {
+			pending = append(pending, nil)
+			err := e.Encode(&struct{}{})
+			verifAssert(err == nil, "C09:encode-ok")
+			if 0 >= bs {
+				wantBlocks = append(wantBlocks, pending)
+				pending = nil
+			}
+		} else {
+			err := e.Flush()
+			verifAssert(err == nil, "C09:flush-ok")
+			if len(pending) > 0 {
+				wantBlocks = append(wantBlocks, pending)
+				pending = nil
+			}
+		}
+		verifCheckBlocks(rec.all()[hdr:], sync, comp, wantBlocks, "C09")
+	}
+	err = e.Flush()
+	verifAssert(err == nil, "C09:final-flush-ok")
+	if len(pending) > 0 {
+		wantBlocks = append(wantBlocks, pending)
+	}
+	verifCheckBlocks(rec.all()[hdr:], sync, comp, wantBlocks, "C09")
+	verifReach("end")
+}
+
 // records encode to 3 or 4 bytes: 0 = every record is a block, 4 / 7 = a block
 // every one-two / two-three records, 100 = only flush emits
 func verifC09BlockSize(k int) int {
@@ -1011,14 +1057,33 @@ func verifHarness_C10_retained_records() {
 	// the owner of one record gives its bank back as soon as the next record
 	// arrives: it may be recycled for the record after; the others must be
 	// unaffected
-	closed := verifChoice("closeBank", 3) - 1 // -1: none, 0: the first, 1: the second
+	// (3: every record but the first releases its own bank inside its callback
+	// while the first record is retained)
+	closed := verifChoice("closeBank", 4) - 1 // -1: none, 0: the first, 1: the second, 2: see above
+	ownAfterFirst := closed == 2
+	if ownAfterFirst {
+		closed = -1
+	}
 	var got []verifRec10
 	var banks []*ResourceBank
+	var released []bool
 	err = ReadFile(&verifReader{buf: data}, verifRec10{}, func(val unsafe.Pointer, rb *ResourceBank) error {
 		got = append(got, *(*verifRec10)(val))
+		// a bank whose record is still live is not handed out again
+		for j, b := range banks {
+			if !released[j] {
+				verifAssert(b != rb, "C10:bank-of-a-live-record-is-not-handed-out-again")
+			}
+		}
 		banks = append(banks, rb)
+		released = append(released, false)
 		if closed >= 0 && len(banks) == closed+2 {
 			banks[closed].Close()
+			released[closed] = true
+		}
+		if ownAfterFirst && len(banks) > 1 {
+			rb.Close()
+			released[len(banks)-1] = true
 		}
 		return nil
 	})
@@ -1028,7 +1093,7 @@ func verifHarness_C10_retained_records() {
 		return
 	}
 	for i := 0; i < 3; i++ {
-		if i == closed {
+		if i == closed || (ownAfterFirst && i > 0) {
 			continue
 		}
 		g, w := &got[i], &want[i]
